@@ -47,6 +47,7 @@ func noRuntimeLimits(c *Ctx, rule string) {
 
 func runC20(c *Ctx) {
 	noRuntimeLimits(c, "R10")
+	recursionBetweenFrames(c, "R13")
 	defer c.shared("R11", "C18/R1", "hitting a limit keeps the output written before it: printf writes its text at once with a single write (it is not held back in the evaluator until a newline or the end of the run)", keyHas("single-write"), runC18)
 	defer c.shared("R12", "C10/R6", "hitting a limit keeps the output written before it: no output is parked in evaluator state", keyHas("evaluator-state", "interpreter-state"), func(s *Ctx) { interpreterState(s, "R6") })
 	defer c.shared("R9", "C04/R3", "everything up to the decoder's nesting limit works: the renderer and the JSON converter give the cycle verdict only when the path scan finds the value among its ancestors, never because of its depth", keyHas("cycle-verdict"), func(s *Ctx) {
@@ -266,5 +267,74 @@ func decodeErrorWrapped(c *Ctx, rule string) {
 	}
 	if !found {
 		c.violated(rule, "decode-error-is-JsonError", p.InstrPos(dec), "no return on the `Decode error != nil` edge")
+	}
+}
+
+// recursionBetweenFrames: the call-depth limit bounds the Go stack only if the interpreter's own
+// recursion between two frame pushes is bounded too. The evaluator recurses on the syntax tree
+// (evalExpr -> evalBinaryExpr -> evalExpr …): with the calls that follow a frame push (and its depth
+// test) taken out of the static call graph, a cycle through evalExpr that remains is recursion whose
+// depth is the nesting depth of the program text, multiplied by up to callDepthLimit live calls.
+func recursionBetweenFrames(c *Ctx, rule string) {
+	p := c.P
+	c.note("%s recursion-between-frames: in the static call graph of package lang, with every call that is dominated by a frame push in its function removed, no cycle passes through the expression evaluator — otherwise the Go stack used per jqawk call grows with the nesting depth of the program text and the call-depth limit does not bound it.", rule)
+	m := discoverFrameModel(p)
+	ee := p.LangFunc("(*Evaluator).evalExpr")
+	if m.push == nil || ee == nil {
+		c.undecided(rule, "recursion-between-frames", "", "push primitive or evalExpr not found")
+		return
+	}
+	succ := map[*ssa.Function]map[*ssa.Function]bool{}
+	for _, fn := range p.Funcs {
+		if !p.InLang(fn) || p.inTestFile(fn) {
+			continue
+		}
+		var pushes []ssa.CallInstruction
+		for _, call := range callsIn(fn) {
+			if call.Common().StaticCallee() == m.push {
+				pushes = append(pushes, call)
+			}
+		}
+		for _, call := range callsIn(fn) {
+			g := call.Common().StaticCallee()
+			if g == nil || !p.InLang(g) || g == m.push {
+				continue
+			}
+			guarded := false
+			for _, ps := range pushes {
+				if dominatesInstr(ps, call) {
+					guarded = true
+				}
+			}
+			if guarded {
+				continue
+			}
+			if succ[fn] == nil {
+				succ[fn] = map[*ssa.Function]bool{}
+			}
+			succ[fn][g] = true
+		}
+	}
+	// is evalExpr on a cycle of the remaining graph?
+	reach := map[*ssa.Function]bool{}
+	var stack []*ssa.Function
+	for g := range succ[ee] {
+		stack = append(stack, g)
+	}
+	for len(stack) > 0 {
+		f := stack[len(stack)-1]
+		stack = stack[:len(stack)-1]
+		if reach[f] {
+			continue
+		}
+		reach[f] = true
+		for g := range succ[f] {
+			stack = append(stack, g)
+		}
+	}
+	if reach[ee] {
+		c.violated(rule, "recursion-between-frames evalExpr", p.Pos(ee.Pos()), "the expression evaluator recurses on the syntax tree without a depth test between frame pushes: the Go stack one jqawk call uses grows with the nesting of its expressions, so a few thousand live calls of a function whose recursive call sits a few hundred parentheses deep exhaust the Go stack (fatal error, not the call-depth error)")
+	} else {
+		c.ok(rule, "recursion-between-frames evalExpr", p.Pos(ee.Pos()), "no unguarded cycle through evalExpr")
 	}
 }
